@@ -53,3 +53,41 @@ mod util {
 pub use interface::{Attribute, ExpandedName, QualName, TokenizerResult};
 pub use util::smallcharset::SmallCharSet;
 pub use util::*;
+
+/// Verification hooks (compiled only with `--cfg servo_html5ever_verif`): a per-thread
+/// step counter that the tokenizer and tree-builder driver loops tick, so that a test
+/// harness can detect a loop that never terminates without relying on wall-clock time.
+#[cfg(servo_html5ever_verif)]
+pub mod verif_hooks {
+    use std::cell::Cell;
+
+    thread_local! {
+        static STEPS: Cell<u64> = const { Cell::new(0) };
+        static LIMIT: Cell<u64> = const { Cell::new(u64::MAX) };
+        static MAX_SEEN: Cell<u64> = const { Cell::new(0) };
+    }
+
+    /// Reset the counter and set the number of steps allowed until the next reset.
+    pub fn set_budget(limit: u64) {
+        STEPS.with(|s| s.set(0));
+        LIMIT.with(|l| l.set(limit));
+    }
+
+    /// Steps counted since the last `set_budget`.
+    pub fn steps() -> u64 {
+        STEPS.with(|s| s.get())
+    }
+
+    /// Called from the driver loops.
+    pub fn tick(site: &'static str) {
+        let n = STEPS.with(|s| {
+            let n = s.get() + 1;
+            s.set(n);
+            n
+        });
+        if n > LIMIT.with(|l| l.get()) {
+            LIMIT.with(|l| l.set(u64::MAX));
+            panic!("verif step budget exceeded at {site}");
+        }
+    }
+}
